@@ -707,9 +707,17 @@ where
                 );
             }
         }
+        // A stored result is the result of this Search only if the stream was read to
+        // the end; an adapter which chains several Searches (e.g., PagedResults) leaves
+        // the result of an earlier one in place while the next is in progress.
+        let res = if self.state == StreamState::Done {
+            self.res.take()
+        } else {
+            None
+        };
         self.state = StreamState::Closed;
         self.rx = None;
-        self.res.take().unwrap_or_else(|| LdapResult {
+        res.unwrap_or_else(|| LdapResult {
             rc: 88,
             matched: String::from(""),
             text: String::from("user cancelled"),
